@@ -81,6 +81,13 @@ void CSVParser<IndexType, DType>::ParseBlock(
   while (lbegin != end) {
     // get line end
     this->IgnoreUTF8BOM(&lbegin, &end);
+    if (lbegin == end || *lbegin == '\n' || *lbegin == '\r') {
+      // nothing but a BOM on this line: an empty line (lbegin + 1 below would be past its end)
+      while ((lbegin != end) && (*lbegin == '\n' || *lbegin == '\r')) {
+        ++lbegin;
+      }
+      continue;
+    }
     lend = lbegin + 1;
     while (lend != end && *lend != '\n' && *lend != '\r') {
       ++lend;
